@@ -450,7 +450,9 @@ def shard_race(spec, R):
             R.count("race_rounds")
             R.count("race_rounds_with_2plus_compilers", int(ncompile >= 2))
             R.count("threads_at_compile_line", ncompile)
-            R.note("interleaving_signatures", {name: ["".join("c" if e == "compile" else "t" for e in sig)]})
+            sigs_seen = locals().setdefault("_sigs", [])
+            sigs_seen.append("".join("c" if e == "compile" else "t" for e in sig))
+            R.note("interleaving_signatures", {name: sorted(set(sigs_seen))})
             case = {"kernel": name, "threads": nthreads, "round": rnd}
             if alive:
                 R.inconclusive_because(f"{name}: {len(alive)} racing threads still running after the watchdog")
